@@ -29,7 +29,7 @@ import (
 // the environment (`C16_HANGCTL`).
 
 const (
-	afterHangBound = 4 * time.Second
+	afterHangBound = 2500 * time.Millisecond
 	skipAfter      = 3
 )
 
